@@ -38,6 +38,14 @@ CHECKS = {
    technique="runtime differential monitor: get_at at every interesting timestamp and complete forward/backward history traversals with option variants vs a retained-version model, under fuzzed placement, both index back-ends, manual clock for finite retention",
    text="Held on the generated timestamped histories x placement schedules x back-ends counted in the evidence, with readers held open across compactions. Two open known findings (finite retention: expired replace barrier; index clean-up of barrier entries) are reported as KNOWN-FINDING and masked in the finite-retention campaign only.",
    note="Trusted: reference model incl. the stated tolerances (ties, finite-retention optional versions). Equal timestamps for two versions of one key are not generated (the property lets ties resolve either way). The crash clause is not yet covered here."),
+ "C11": dict(level="exploration", engine="E1 (value-log matrix) + E2", ref="DESIGN.md 3/C11",
+   technique="runtime monitor: byte-for-byte comparison of every value read (fresh transactions, readers and cursors opened before flush/compaction/clean-up) with self-identifying values, value-log file invariant after each placement step, plus crash images with the value log on",
+   text="Held on the generated histories (value sizes 0, 1, threshold-1/threshold/threshold+1, multi-block, 80 KiB; value-log files from 256 B so that rotation happens inside one flush; both checksum levels) x placement schedules, and on the enumerated crash images of traced runs with the value log on.",
+   note="Trusted: reference model, image builder. The 'no file removed while reachable' clause is checked as: every file from the oldest id a live table points into up to the newest exists, and every read through an older reader/cursor still resolves."),
+ "C14": dict(level="exploration", engine="E1 + checkpoint/restore steps", ref="DESIGN.md 3/C14",
+   technique="runtime differential monitor with checkpoint and restore steps: model rewound at restore, full query battery after every step, checkpoint copied and opened standalone",
+   text="Held on the generated three-segment histories (before checkpoint / between checkpoint and restore with flushes and compactions and cache-warming reads / after restore with commits, flush, compaction, reopen) x option sets counted in the evidence. One open known finding (version index neither checkpointed nor restored) is reported as KNOWN-FINDING and masked: these histories do not enable the version index.",
+   note="Trusted: reference model. Single driver thread, so no commit is in flight at the checkpoint, as the property requires."),
 }
 order = ["C01","C02","C03","C04","C05","C06","C07","C08","C09","C10","C11","C12","C13","C14","C15","C16","C17","C18","C19"]
 checks=[]
@@ -60,8 +68,8 @@ m={"version":1,
  "setup_cmd":"cd /verif && gcc -O2 -shared -fPIC -o shim/iotrace.so shim/iotrace.c -ldl -lpthread && cd harness && CARGO_NET_OFFLINE=true cargo build --release --offline",
  "hooks":{"guard":"cargo feature `verif` of surrealkv (off by default)","enable":"the harness depends on surrealkv (path /repo) with features=[\"verif\"]; every check rebuilds it from the working tree","baseline_off_cmd":"cd /repo && cargo test --workspace --no-fail-fast --offline","source_commits":hook_commits,"add_only":True},
  "engines":[
-   {"name":"E1","path":"harness/src/e1.rs","serves_properties":["C01","C06","C07","C09","C10"],"kind_free_text":"placement-fuzzed differential monitor against a sequential reference model (single driver)"},
-   {"name":"E2","path":"harness/src/e2.rs, harness/src/trace.rs, shim/iotrace.c","serves_properties":["C02","C03","C07"],"kind_free_text":"LD_PRELOAD syscall recorder -> synthesised crash images (process / power loss) -> verifier subprocess pool running the real code"},
+   {"name":"E1","path":"harness/src/e1.rs","serves_properties":["C01","C06","C07","C09","C10","C11","C14"],"kind_free_text":"placement-fuzzed differential monitor against a sequential reference model (single driver)"},
+   {"name":"E2","path":"harness/src/e2.rs, harness/src/trace.rs, shim/iotrace.c","serves_properties":["C02","C03","C07","C11"],"kind_free_text":"LD_PRELOAD syscall recorder -> synthesised crash images (process / power loss) -> verifier subprocess pool running the real code"},
  ],
  "checks":checks,"not_applicable":na,
  "notes":"See DESIGN.md. known_findings.json lists the defects found on the unchanged tree; all listed so far are repaired by fix: commits and their directed scenarios stay in the checks as regression monitors."}
